@@ -8,7 +8,7 @@ import subprocess
 import sys
 import tempfile
 
-from checks.c06_replay import _vals, _build, perturb, lowp_problem
+from checks.c06_replay import _vals, _build, perturb, lowp_problem, dump_state_summary, placement_problems
 from checks.c07_replay import _orig_vals
 
 
@@ -47,6 +47,7 @@ def worker(rank, world, cfgfile, initfile, outfile):
             p.grad = distribute_tensor(_orig_vals(cfg, vals, "g", i, origs[i], k).reshape(origs[i]), mesh, plc) if present else None
         opt.step()
     json.dump([p.to_local().detach().tolist() for p in params], open(outfile, "w"))
+    dump_state_summary(opt, params, outfile)
     dist.destroy_process_group()
 
 
@@ -85,6 +86,10 @@ def replay(record):
         if p.returncode != 0:
             err = (p.stderr.read() or "").strip().splitlines()
             problems.append(f"rank {r} failed: {err[-1] if err else p.returncode}")
+    if not problems and hybrid and (info.get("signature") or {}).get("kind") == "state-placement":
+        reps = hybrid["replicate"]
+        gsz = reps if hybrid.get("group", -1) == -1 else hybrid["group"]
+        problems += placement_problems(d, [[(q0 + q) * nshard + t for q in range(gsz)] for t in range(nshard) for q0 in range(0, reps, gsz)])
     if not problems:
         full = [_orig_vals(cfg, vals, "w", i, origs[i]).reshape(origs[i]) for i in range(len(origs))]
         for srank in range(nshard):
